@@ -299,6 +299,8 @@ def check_filesets(case, ctx):
         end = BASE + dt.timedelta(milliseconds=end_ms)
         ctx.label("period")
     full = C4.expected_pairs(sets[0], sets[1], r_km, m_s, start_ms, end_ms)
+    if m_s >= 86400:
+        ctx.label("max_interval>=1day")
     where0 = lambda: "max_distance=%r max_interval=%rs period=%r" % (
         case["max_distance"], m_s, period)
 
@@ -491,10 +493,15 @@ def check_filesets(case, ctx):
 @st.composite
 def fileset_cases(draw):
     m_s = draw(st.sampled_from([1, 2, 5, 30, 60, 600]))
+    if draw(st.integers(0, 3)) == 0:
+        # a day or more: whole days and the rest of the seconds both count
+        m_s = draw(st.sampled_from([86400, 86401, 90000, 108000, 172800]))
     radius = draw(C4.distance_specs(lo=0.5, hi=500.0))
     r_km = float(P.radius_km_exact(radius))
+    long_interval = m_s >= 86400
     cloud = draw(P.clouds(r_km, m_s=m_s, n_sets=2, min_points=2,
-                          max_points=60, allow_nan=True))
+                          max_points=24 if long_interval else 60,
+                          allow_nan=True))
     n0, n1 = (len(s["id"]) for s in cloud["sets"])
     # Output files are named by the time span of the primaries they hold, so
     # results with identical primary times collide by design (known finding
@@ -520,6 +527,11 @@ def fileset_cases(draw):
     cloud["sets"][0]["t_ms"] = unique
 
     def cuts(n):
+        if long_interval:
+            # many short files: most file pairs then meet only through the
+            # widening by max_interval
+            return draw(st.lists(st.integers(0, max(n - 1, 0)),
+                                 min_size=n // 2, max_size=n))
         return draw(st.lists(st.integers(0, max(n - 1, 0)), min_size=0,
                              max_size=7))
     splits = [[cuts(n0), cuts(n1)]]
@@ -564,7 +576,11 @@ def fileset_cases(draw):
             "broken": broken})
     start_only = [draw(st.integers(0, 3)) == 0, draw(st.integers(0, 3)) == 0]
     daily_dirs = draw(st.booleans())
-    if midnight is not None and draw(st.integers(0, 3)) > 0:
+    if m_s >= 86400:
+        # files then last several days: dated sub directories would break the
+        # layout rule of C01 (no file longer than its directory's period)
+        daily_dirs = False
+    elif midnight is not None and draw(st.integers(0, 3)) > 0:
         # focus on the change of the day: dated sub directories, a period that
         # starts shortly after midnight (also after midnight + max_interval)
         daily_dirs = True
